@@ -398,7 +398,18 @@ PathItemShapes(st) ==
 (* relative references resolve against the working directory (the harness stands in the root's dir) *)
 (* file_abs_prior: the Loader has first loaded, as a root document of its own, every external file of the    *)
 (* universe (successfully or not); what a Loader has seen before gives the next load no licence to read it *)
-Entries == {"file_abs", "file_rel", "datapath", "file_rel_default", "uri_remote", "file_abs_reuse", "file_abs_prior", "data", "reader"}
+(* resolvein: the document is unmarshalled by the caller and handed to Loader.ResolveRefsIn with its location (the entry point for an  *)
+(* already parsed document) -- on a fresh Loader                                                                                      *)
+(* Histories of one Loader with the external-reference switch CHANGED between two uses (the second use is the one judged, with the     *)
+(* setting `allow` of the case; the first use ran with the opposite setting):                                                          *)
+(*   file_abs_toggled / resolvein_toggled: first a reference-free document at another location is loaded, then the switch is flipped,  *)
+(*     then LoadFromFile / ResolveRefsIn of the universe's root: the setting in force is the one at the time of the use                *)
+(*   file_abs_retry / resolvein_retry: first THE SAME root is loaded with external references disallowed (which fails wherever the     *)
+(*     universe needs another file), then they are allowed and the root is loaded again: a failed attempt leaves nothing behind.       *)
+(*     (Only this direction: whether a Loader that has resolved a document with the switch on may hand the same document out again     *)
+(*     after the switch is turned off -- reading nothing -- is left open by the statement of C11, so allow = FALSE is not generated.)   *)
+HistoryEntries == {"resolvein", "file_abs_toggled", "resolvein_toggled", "file_abs_retry", "resolvein_retry"}
+Entries == {"file_abs", "file_rel", "datapath", "file_rel_default", "uri_remote", "file_abs_reuse", "file_abs_prior", "data", "reader"} \cup HistoryEntries
 
 Heavy == {"deepback", "deepback_named", "wholedef", "wholedef_ref", "wholedef_reffrag", "wholedef_via"}      \* (shape families with many members: sliced by clauses of their own)
 QuickSlice(sh, st, e, pos) ==
@@ -406,6 +417,8 @@ QuickSlice(sh, st, e, pos) ==
    \/ (sh.shape \in {"deepback", "deepback_named"} /\ sh.canon /\ st = "plain" /\ e = "file_abs" /\ pos = "op")
    \/ (sh.shape \in {"wholedef", "wholedef_ref", "wholedef_reffrag", "wholedef_via"} /\ st = "plain" /\ e = "file_abs" /\ pos = "op")
    \/ (sh.shape = "wholedef_ref" /\ st = "plain" /\ e \in {"file_rel", "uri_remote"} /\ pos = "op" /\ sh.site \in {"properties", "schema", "content.schema", "headers"})
+   \/ (sh.shape \in {"direct", "chain3", "child", "wholefile"} /\ st = "plain" /\ e \in {"resolvein", "file_abs_toggled", "resolvein_toggled"} /\ pos = "op")
+   \/ (sh.shape \in {"direct", "child", "sameroot"} /\ st = "plain" /\ e \in {"file_abs_retry", "resolvein_retry"} /\ pos = "op")
    \/ (sh.shape \in {"deepcomp_local", "rootdef", "pi_nearmiss_local", "pathfragment_nearmiss_local"} /\ st = "plain" /\ e = "data")
    \/ (st \in AbsStyles /\ sh.shape \in {"direct", "child", "wholefile"} /\ e = "datapath" /\ pos = "op")
    \/ sh.shape = "otherhost_samepath"
@@ -438,6 +451,8 @@ Init == \E k \in Kinds \cup {PI}, st \in Styles, e \in Entries, pos \in {"op", "
              /\ (pos = "op2" => sh.shape \in {"direct", "chain3", "child", "childlocal", "wholefile", "selfcycle", "backref"} /\ e \in {"file_abs", "file_rel"})
              /\ (Tier = "quick" => QuickSlice(sh, st, e, pos))
              /\ (e = "uri_remote" => st \in RelStyles)
+             /\ (e \in {"file_abs_retry", "resolvein_retry"} => al)
+             /\ (e \in HistoryEntries => st \in RelStyles \cup {"abspath"} /\ pos # "op2")
              /\ (sh.shape = "samepath_twohosts" => e # "file_rel_default")      \* the library's default reader cannot be made to serve a second host
              /\ (k = "securitySchemes" => pos = "comp")        \* security schemes are referenced by name, not by $ref
              /\ case = [kind |-> k, style |-> st, entry |-> e, pos |-> pos, shape |-> sh.shape,
